@@ -263,7 +263,14 @@ def _emit_access_log(
         }
         if cancelled:
             extra["cancelled"] = True
-        if error_message:
+        if status == "error":
+            # The published schema requires a non-empty error_message on every
+            # error record, but an exception raised without arguments
+            # (``raise ValueError()``) has an empty str().  Fall back to the
+            # error type so the failure still produces a conformant record
+            # instead of one every validator rejects.
+            extra["error_message"] = error_message or error_type or "error"
+        elif error_message:
             extra["error_message"] = error_message
         if server_version:
             extra["server_version"] = server_version
